@@ -7,6 +7,7 @@ from formak.reference_models import strapdown_imu as sd
 inp = json.load(open(sys.argv[1]))
 cache = {}
 out = []
+returned = []   # states handed out earlier must keep their values when the model is evaluated again
 byname = {s.name: s for s in list(sd.symbolic_model.state) + list(sd.symbolic_model.control) + list(sd.symbolic_model.calibration)}
 for p in inp["points"]:
     key = (p["cse"], json.dumps(p["calibration"], sort_keys=True))
@@ -17,6 +18,9 @@ for p in inp["points"]:
         m = cache[key]
         nxt = m.model(float(p["dt"]), m.State(**p["state"]), m.Control(**p["control"]))
         out.append({str(n): float(v) for n, v in zip(m.arglist_state, nxt.data[:, 0])})
+        returned.append((nxt, nxt.data.copy()))
     except Exception as e:  # noqa
         out.append({"_raised": type(e).__name__ + ": " + str(e)[:300]})
-json.dump({"results": out}, open(sys.argv[2], "w"))
+import numpy as np
+stable = bool(all(np.array_equal(o.data, v, equal_nan=True) for o, v in returned))
+json.dump({"results": out, "results_stable": stable}, open(sys.argv[2], "w"))
